@@ -1884,6 +1884,7 @@ class SourceFinder(object):
             # if we have enough data for a fit
             nfree = np.count_nonzero([params[p].vary for p in params.keys()])
             self.log.debug(params)
+            fit_flag = 0
             if nfree < 1:
                 self.log.debug(" Island has no components to fit")
                 result = DummyLM()
@@ -1928,8 +1929,18 @@ class SourceFinder(object):
                     C = B = None
                 errs = np.nanmax(
                     rmsimg[int(xmin): int(xmax), int(ymin): int(ymax)])
-                result, _ = do_lmfit(idata, params, B=B)
-                model = covar_errors(result.params, idata, errs=errs, B=B, C=C)
+                try:
+                    result, _ = do_lmfit(idata, params, B=B)
+                    model = covar_errors(
+                        result.params, idata, errs=errs, B=B, C=C)
+                except AegeanNaNModelError:
+                    # lmfit wandered into NaN parameters. Keep the components
+                    # at their input values, flagged as a failed fit.
+                    self.log.debug(
+                        "Island {0}: NaN model, not fit".format(inum))
+                    result = DummyLM()
+                    model = params
+                    fit_flag = flags.FITERR
 
             # convert the results to a source object
             offsets = (xmin, xmax, ymin, ymax)
@@ -1942,7 +1953,7 @@ class SourceFinder(object):
                 scalars=(4, 4, None)
             )
             new_src = self.result_to_components(
-                result, model, island_data, src.flags)
+                result, model, island_data, src.flags | fit_flag)
 
             for ns, s in zip(new_src, included_sources):
                 # preserve the uuid so we can do exact
@@ -2144,7 +2155,15 @@ class SourceFinder(object):
             errs = np.nanmax(rms)
             self.log.debug("Initial params")
             self.log.debug(params)
-            result, _ = do_lmfit(idata, params, B=B)
+            try:
+                result, _ = do_lmfit(idata, params, B=B)
+            except AegeanNaNModelError:
+                # lmfit wandered into NaN parameters. Keep the island: report
+                # the initial estimate, flagged as a failed fit.
+                self.log.debug(
+                    "Island {0}: NaN model, not fit".format(isle_num))
+                return self.result_to_components(
+                    DummyLM(), params, island_data, is_flag | flags.FITERR)
             if not result.errorbars:
                 is_flag |= flags.FITERR
             # get the real (sky) parameter errors
